@@ -131,6 +131,16 @@ def build_schedules(seed, groups, thorough):
         c = fill_cfg(r, cfg)
         r.shuffle(others)
         mine = tam[i::nc]
+        # every other tamper case reaches verification through `combine` instead of load + verify: the altered lock sits in
+        # one node directory (first / second / last / any), the others hold the pristine file
+        routed = []
+        for k, st in enumerate(mine):
+            if k % 2 == 1 or thorough:
+                at = r.choice([0, 1, c["n"] - 1, r.randrange(c["n"])])
+                routed.append(dict(st, via="combine", at=at))
+            if k % 2 == 0 or thorough:
+                routed.append(st)
+        mine = routed
         scheds.append([c, {"ev": "Create"}, {"ev": "Load", "node": r.randrange(c["n"])}, {"ev": "Verify"}] + others + mine)
     # larger clusters: seeded subsets
     for n in ([6, 7, 8, 9, 10] if thorough else r.sample([6, 7, 8, 9, 10], 2)):
